@@ -292,9 +292,23 @@ def build(spec, stack=('x', 'y'), scheme='s', eps='_'):
     from gambatools.pda import PDA
     Q, Sg, Gm, T, q0, F = parts(spec, stack, scheme)
     delta = collections.defaultdict(set)
-    for (p, a, u, q, v) in T:
+    for (p, a, u, q, v) in ordered_transitions(T, Q):
         delta[p, a or eps, u or eps].add((q, v or eps))
     return PDA(set(Q), set(Sg), set(Gm), delta, q0, set(F), eps)
+
+
+def ordered_transitions(T, Q):
+    """Insertion order of the transition dict: the set's own order by default, else by the presentation knob."""
+    from mc import spaces
+    o = spaces.KNOBS['dorder']
+    if o is None:
+        return list(T)
+    L = sorted(T, key=lambda t: (Q.index(t[0]), t[1], t[2], Q.index(t[3]), t[4]))
+    if o == 'aq':
+        L.sort(key=lambda t: (t[1], t[2], Q.index(t[0])))
+    elif o == 'rev':
+        L.reverse()
+    return L
 
 
 def show(spec, stack=('x', 'y'), scheme='s'):
@@ -317,7 +331,7 @@ def morph(spec, stack=('x', 'y'), scheme='s', eps='_'):
     P.Sigma.clear(); P.Sigma.update(Sg)
     P.Gamma.clear(); P.Gamma.update(Gm)
     P.delta.clear()
-    for (p, a, u, q, v) in T:
+    for (p, a, u, q, v) in ordered_transitions(T, Q):
         P.delta[p, a or eps, u or eps].add((q, v or eps))
     P.q0 = q0
     P.F.clear(); P.F.update(F)
